@@ -1,17 +1,116 @@
 (** C36 — Bitswap server sends only wanted, present, permitted data and bounds queues.
     This file contains ONLY the property theorems, each closed by [exact] of a
     lemma proved in [proofs/P_C36*.v], with [Print Assumptions] beneath it.
-    Model: [model/M_C36.v] (transcribed from bitswap/server/internal/decision and
-    tied to the code by the correspondence check of ./check C36). *)
-From Coq Require Import List ZArith Bool NArith.
-From V Require Import lib.Verdict model.M_C36 proofs.P_C36.
+    Model: [model/M_C36.v] (transcribed from bitswap/server/internal/decision and the
+    parts of go-peertaskqueue it uses; tied to the code by the correspondence check of
+    ./check C36).  [run fl g s ops] is the list of observations (both ledger maps, queued
+    task topics, envelope contents) after each call; the specification clauses
+    ([send_clause], [view_clause], [answered_clause], [bounded_ok]) are the boolean
+    functions that [check_case] also evaluates on what the real engine did.
+    [flags_off] = all six defect switches off; [wf_op]: a message holds a CID at most once
+    (it is a map keyed by CID). *)
+From Coq Require Import List ZArith Bool NArith Permutation.
+From V Require Import lib.Verdict model.M_C36 proofs.P_C36 proofs.P_C36_inv proofs.P_C36_ovf proofs.P_C36_ans proofs.P_C36_wit.
 Import ListNotations.
 Open Scope Z_scope.
 
-(** No peer's ledger ever exceeds the configured limit: for every configuration,
-    every number of peers, every initial blockstore, EVERY sequence of calls
-    (messages of any shape, block additions/removals, drains) and every defect set. *)
+(** Everything put into an envelope for peer p — after ANY sequence of messages (full /
+    incremental, cancels, re-sent, identity, oversize, denied CIDs, any number of peers),
+    block additions/removals and drains — satisfies:
+    block c: c is in the blockstore, in p's own current want-list and not denied;
+    HAVE c: c is in p's current want-list, not denied, and present (or removed since the
+      previous drain: the decision is taken when the want/the block arrives);
+    DONT_HAVE c: p asked for a DONT_HAVE for c, c is in p's current want-list, and c is
+      absent (or added since the previous drain) or denied to p. *)
+Theorem C36_send_sound : forall g np b0 ops, Forall wf_op ops ->
+  trace_ok (send_clause g) (ghost0 np b0) ops (run flags_off g (init np b0) ops) = true.
+Proof. exact send_sound. Qed.
+Print Assumptions C36_send_sound.
+
+(** No peer's ledger ever exceeds the configured limit — for every call sequence and
+    every defect set. *)
 Theorem C36_bounded : forall fl g np b0 ops,
   forallb (bounded_ok g) (run fl g (init np b0) ops) = true.
 Proof. exact bounded_all. Qed.
 Print Assumptions C36_bounded.
+
+(** After every call the ledger of p (WantlistForPeer) holds only CIDs of p's own current
+    want-list, and the two ledger maps agree. *)
+Theorem C36_ledger_in_view : forall g np b0 ops, Forall wf_op ops ->
+  trace_ok view_clause (ghost0 np b0) ops (run flags_off g (init np b0) ops) = true.
+Proof. exact ledger_in_view. Qed.
+Print Assumptions C36_ledger_in_view.
+
+(** A (non-empty) full want-list replaces the ledger: from ANY peer state, afterwards every
+    ledger entry is a want of that message. *)
+Theorem C36_full_replaces : forall g b p ents s c,
+  amem (pl (msg_peer flags_off g b p true ents s)) c = true -> ents <> [] ->
+  exists w, In w ents /\ w_cancel w = false /\ w_cid w = c.
+Proof. exact full_replaces. Qed.
+Print Assumptions C36_full_replaces.
+
+(** Overflow order, for EVERY ledger, every list of newcomers and every blockstore (ties
+    included): the plan of handleOverflow partitions the existing wants into evicted/kept
+    and the newcomers into admitted/rejected such that wants without a local block are
+    evicted first, within each class the lowest priorities first, the best newcomers are
+    admitted, no want evicted for priority outranks an admitted newcomer, and a newcomer
+    is rejected only if every remaining want has a block and outranks it
+    ([plan_ok], proofs/P_C36_ovf.v). *)
+Theorem C36_overflow_order : forall g b l0 ov,
+  plan_ok (fun c => nmem c b) l0 ov (overflow_plan flags_off g b l0 ov).
+Proof. exact overflow_order. Qed.
+Print Assumptions C36_overflow_order.
+
+(** Every accepted want is answered: after every call, every want in a peer's ledger whose
+    block is in the blockstore has a task in the request queue (popping the queue is
+    go-peertaskqueue's business; a drain sends every queued task's answer, see
+    C36_send_sound / the model's [response]). *)
+Theorem C36_answered : forall g np b0 ops, Forall wf_op ops ->
+  trace_ok answered_clause (ghost0 np b0) ops (run flags_off g (init np b0) ops) = true.
+Proof. exact answered. Qed.
+Print Assumptions C36_answered.
+
+(** The code as it was / is (one defect switch on) fails the specification on a concrete
+    history on which the repaired model meets it.  [refutes k w]: the history is
+    well-formed, [spec_check] fails on the model with defect k, holds with all off. *)
+Theorem C36_sort_desc_refuted : refutes 1 w1.
+Proof. exact refuted1. Qed.
+Print Assumptions C36_sort_desc_refuted.
+Theorem C36_clear_keeps_refuted : refutes 2 w2.
+Proof. exact refuted2. Qed.
+Print Assumptions C36_clear_keeps_refuted.
+Theorem C36_full_keeps_tasks_refuted : refutes 3 w3.
+Proof. exact refuted3. Qed.
+Print Assumptions C36_full_keeps_tasks_refuted.
+Theorem C36_truncate_refuted : refutes 4 w4.
+Proof. exact refuted4. Qed.
+Print Assumptions C36_truncate_refuted.
+Theorem C36_zero_absent_refuted : refutes 5 w5.
+Proof. exact refuted5. Qed.
+Print Assumptions C36_zero_absent_refuted.
+Theorem C36_cancel_ledger_refuted : refutes 6 w6.
+Proof. exact refuted6. Qed.
+Print Assumptions C36_cancel_ledger_refuted.
+
+(** Non-vacuity: a well-formed two-peer history with an overflow, an upgrade of a queued
+    want-have, a block removal and a notification; the engine model sends a block, a HAVE
+    and a DONT_HAVE, and the whole specification holds on it. *)
+Example C36_example :
+  let g := CFG 2 4 true true [] [(0, 8); (1, 3)]%nat in
+  let ops := [OMsg 0 false [W 0 1 false false true; W 1 2 false false false];
+              OMsg 1 false [W 0 1 false false false; W 2 5 true false true];
+              OMsg 0 false [W 3 9 true false true]; ORemove 1; ODrain; OAdd 2; ODrain]%nat in
+  Forall wf_op ops /\
+  map so_drain (run flags_off g (init 2 [0; 1; 3]%nat) ops) =
+    [[]; []; []; []; [([3], [], []); ([], [0], [2])]; []; [([], [], []); ([2], [], [])]]%nat /\
+  spec_check g 2 [0; 1; 3]%nat ops (run flags_off g (init 2 [0; 1; 3]%nat) ops) = true.
+Proof. cbn zeta. split; [apply wf_opsb_ok; reflexivity|]. vm_compute. split; reflexivity. Qed.
+
+(** Non-vacuity of the overflow theorem: existing wants {0:1 with block, 1:7 and 2:6
+    without}, newcomers of priority 2 and 3: the two wants without blocks go, 0 stays. *)
+Example C36_overflow_example :
+  map (fun eo => (fst (fst eo), w_cid (snd eo)))
+      (overflow_plan flags_off (CFG 3 1024 true true [] []) [0; 4; 5]%nat
+         [LE 0 1 true; LE 1 7 true; LE 2 6 true] [W 4 2 true false true; W 5 3 true false true])
+  = [(2, 5); (1, 4)]%nat.
+Proof. vm_compute. reflexivity. Qed.
